@@ -31,7 +31,7 @@ static Verdict runCase(const OpSeq& c, Info& info)
     lib::Encoder enc;
     uint16_t dev = 0, counter = 0;
     uint8_t stream = 0;
-    bool emitted = false, wrapped = false, changeAfterEmit = false, encodeAfterChange = false, sameValueSet = false;
+    bool emitted = false, wrapped = false, changeAfterEmit = false, encodeAfterChange = false, sameValueSet = false, emptyBatchAfterFrames = false;
 
     auto checkFrames = [&](const std::vector<std::vector<uint8_t>>& frames, uint8_t version, const std::vector<lib::Packet>& batch,
                            size_t opIndex) -> Verdict {
@@ -113,8 +113,10 @@ static Verdict runCase(const OpSeq& c, Info& info)
             case 6:
             {
                 auto batch = buildBatch(op.batch);
-                if (batch.empty())
-                    break;
+                if (batch.empty() && op.op == 5)
+                    break;  // the single-packet overload has no empty form
+                if (batch.empty() && emitted)
+                    emptyBatchAfterFrames = true;
                 std::vector<std::vector<uint8_t>> frames;
                 lib::DataContext ctx{op.batch.minB, op.batch.maxB};
                 if (op.op == 5)
@@ -162,6 +164,8 @@ static Verdict runCase(const OpSeq& c, Info& info)
         info.tag("id_set_to_the_value_already_configured_after_frames");
     if (wrapped)
         info.tag("counter_wrapped");
+    if (emptyBatchAfterFrames)
+        info.tag("empty_batch_after_frames_were_emitted");
     for (const auto& op : c.ops)
         if (op.op == 3 || op.op == 5 || op.op == 6)
             for (const auto& r : op.batch.packets)
@@ -188,6 +192,8 @@ static rc::Gen<OpSeq> genCase(int tier)
         p.maxBatch = 5;
         p.frameBudget = 3000;
         p.beyond16Bit = true;
+        p.allowErrorFlag = true;
+        p.allowEmpty = true;  // an encode call with an empty batch emits nothing and must leave the counter where it is
         for (int i = 0; i < n; ++i)
         {
             EncOp op;
